@@ -4,6 +4,7 @@ import (
 	"bytes"
 	"encoding/hex"
 	"fmt"
+	"io"
 	"strings"
 	"testing"
 
@@ -31,6 +32,7 @@ type C17Case struct {
 	RngKey   uint64    `json:"rng_key"`
 	Contents []m.Block `json:"contents"` // small pool: identical content is appended repeatedly
 	Ops      []C17Op   `json:"ops"`
+	Chunk    int       `json:"chunk,omitempty"` // the random source returns at most this many bytes per Read (0 = no limit)
 }
 
 type c17Tok struct {
@@ -42,7 +44,11 @@ type c17Tok struct {
 
 func checkC17(c C17Case, rec *obs.Recorder) *obs.Violation {
 	_, priv := bridge.RootKey(c.RootSeed)
-	rng := bridge.NewDetRand(c.RngKey)
+	// fresh randomness, possibly delivered in short reads (a healthy source may do that)
+	var rng io.Reader = bridge.NewDetRand(c.RngKey)
+	if c.Chunk > 0 {
+		rng = bridge.Chunked{R: rng, N: c.Chunk}
+	}
 	var live []c17Tok
 	nextSign := 0
 	idOwner := map[string]int{} // revocation id -> signing operation
@@ -135,6 +141,26 @@ func checkC17(c C17Case, rec *obs.Recorder) *obs.Violation {
 		}
 		parent := live[on]
 		switch op.Op {
+		case "fanout":
+			// many siblings: the same content appended to one parent again and again
+			if parent.sealed {
+				continue
+			}
+			ci := op.Content % len(c.Contents)
+			hist = append(hist, fmt.Sprintf("fanout(t%d,c%d,x8)", on, ci))
+			for k := 0; k < 8; k++ {
+				nt, err := bridge.AppendBlock(parent.tok, rng, c.Contents[ci])
+				if err != nil {
+					return obs.Violf("history [%s]: append failed: %v", strings.Join(hist, ","), err)
+				}
+				live = append(live, c17Tok{tok: nt, signed: append(append([]int{}, parent.signed...), nextSign)})
+				nextSign++
+				contentSigned[ci]++
+				sameContentTwice = true
+				if v := observe(len(live)-1, &parent); v != nil {
+					return v
+				}
+			}
 		case "build":
 			hist = append(hist, fmt.Sprintf("build(c%d)", op.Content%len(c.Contents)))
 			if v := build(op.Content); v != nil {
@@ -216,10 +242,11 @@ func drawC17(t *rapid.T) C17Case {
 	for i := 0; i < nc; i++ {
 		c.Contents = append(c.Contents, drawSimpleBlock(t, s))
 	}
+	c.Chunk = rapid.SampledFrom([]int{0, 0, 1, 1, 5, 31}).Draw(t, "chunk")
 	n := rapid.IntRange(1, 14).Draw(t, "nops")
 	for i := 0; i < n; i++ {
 		c.Ops = append(c.Ops, C17Op{
-			Op:      rapid.SampledFrom([]string{"append", "append", "append", "append-last", "append-last", "seal", "reload", "build"}).Draw(t, "op"),
+			Op:      rapid.SampledFrom([]string{"append", "append", "append", "append-last", "append-last", "seal", "reload", "build", "fanout"}).Draw(t, "op"),
 			On:      rapid.IntRange(0, 11).Draw(t, "on"),
 			Content: rapid.IntRange(0, 1).Draw(t, "content"),
 		})
